@@ -319,7 +319,7 @@ def gen_visit_cases(r, thorough):
             c['tag'] = 'sweep'
             cases.append(c)
     # pairs / sequences of hostile bytes, raw characters, injection payloads
-    n = 300 if not thorough else 6000
+    n = 700 if not thorough else 6000
     for i in range(n):
         t = r.randrange(6)
         seq = _pct([r.choice(HOSTILE) for _ in range(r.randrange(1, 4))])
@@ -461,7 +461,7 @@ def coq_checks(case, res):
             _cps(d['path']), _opt(case.get('restart'), str), 'true' if case['listing'] else 'false')
         cached = _opt(case.get('cached'), lambda c: '%s, %s' % (_str(c[0]), _str(c[1])))
         evs = []
-        off = 0
+        delivered = ''
         for e in res['events']:
             if e.startswith('W:'):
                 evs.append('EvWrite %s' % _b(e[2:]))
@@ -473,13 +473,7 @@ def coq_checks(case, res):
                 host, port = e[2:].rsplit(':', 1)
                 evs.append('EvDataOpen [%s] %s' % ('; '.join(host.split('.')), port))
             elif e.startswith('D:'):
-                # a chunk that is the next slice of the data stream is written as that slice of the one literal
-                if case['data'][off:off + len(e) - 2] == e[2:]:
-                    evs.append('EvData (sub d %d %d)' % (off // 2, (len(e) - 2) // 2))
-                    off += len(e) - 2
-                else:
-                    evs.append('EvData %s' % _b(e[2:]))
-                    off = -1 << 40
+                delivered += e[2:]
             elif e == 'E':
                 evs.append('EvDataEof')
             elif e == 'C':
@@ -487,11 +481,13 @@ def coq_checks(case, res):
         o = res['outcome']
         outcome = '(Ok (%d, %s))' % (o['ok'][0], _b(o['ok'][1])) if 'ok' in o else '(Err %s)' % _coq_err(o['err'])
         net = '(natps [' + '; '.join('(%d, %d)' % (a, b) for a, b in case.get('net') or []) + '])'
-        out.append(('let d := %s in check_visit %d (%s) %s %s (mkConn [] %s %s) (mkConn [] d %s) %s [%s] %s' % (
+        # the delivered bytes are written as a slice of the one data literal when they are its prefix
+        deliv = '(sub d 0 %d)' % (len(delivered) // 2) if case['data'].startswith(delivered) else _b(delivered)
+        out.append(('let d := %s in check_visit %d (%s) %s %s (mkConn [] %s %s) (mkConn [] d %s) %s [%s] %s %s' % (
             _b(case['data']), case.get('limit', LIMIT), q, 'true' if case['fresh'] else 'false', cached,
             _b(case['ctrl']), _nat_list([n - 1 for n in case['ctrl_segs'] if n > 0]),
             _nat_list([n - 1 for n in case['data_segs'] if n > 0]), net,
-            '; '.join(evs), outcome), ''))
+            '; '.join(evs), deliv, outcome), ''))
     return out
 
 
@@ -710,7 +706,7 @@ def correspondence(ctx):
     r = common.rng('c17')
     th = ctx.thorough
     cases = []
-    cases += gen_reply_cases(r, 220 if not th else 4000, th)
+    cases += gen_reply_cases(r, 400 if not th else 4000, th)
     cases += gen_visit_cases(r, th)
     cases += gen_cmd_cases(r, 150 if not th else 1500)
     cases += gen_addr_cases(r, 120 if not th else 1500)
@@ -770,7 +766,8 @@ def correspondence(ctx):
         tag = '%s/%s' % (c['kind'], c.get('tag', '-'))
         dist[tag] = dist.get(tag, 0) + 1
         if c['kind'] == 'reply':
-            for lens in c['seglists']:
+            # only the segmentations that are also evaluated in Coq count
+            for lens in (c['seglists'] if c.get('tag') == 'allsplits' else c['seglists'][:c.get('coq_seglists', 4)]):
                 if len(lens) > 1:
                     nontriv.add((c['stream'][:400], len(c['stream']), tuple(lens)))
             for run in res['runs'][:1]:
@@ -795,15 +792,21 @@ def correspondence(ctx):
         'distinct_nontrivial': len(nontriv),
         'rule': 'reply streams (1-3 replies: single / multi-line / LF-only / bare CR / NUL / no separator / garbage / glued finals; truncated; '
                 'junk; small and real 64 KiB limits) each read under whole / byte-wise / 1-last / 1-first / random segmentations and EVERY '
-                'segmentation of short streams; visits of ftp:// URLs with every byte value percent-encoded in path, user and password plus '
-                'hostile sequences, against scripted servers (happy path, wrong codes, extra / missing / truncated replies, no 226, bad PASV) '
-                'with random control and data segmentation, fresh or reused connection, cached login, restart, listing; Command.to_bytes on '
-                'boundary code points; parse_address; Reply.parse on blocks.  non-trivial = distinct (stream, segmentation) with more than one '
-                'segment, plus distinct decoded (user, password, path, listing) with a character outside 0x21..0x7e',
+                'segmentation of short streams, model = implementation, and implementation = an independent RFC 959 reference reader where the '
+                'stream is RFC-shaped; visits of ftp:// URLs with every byte value percent-encoded in path, user and password plus hostile '
+                'sequences, against scripted servers (happy path, wrong codes, extra / missing / truncated replies, no 226, bad PASV, REST accepted '
+                'or refused, MLSD fallback) with random control and data segmentation AND a random arrival schedule (226 buffered before the data '
+                'EOF, data buffered before RETR is answered, trickling), fresh or reused connection, cached login, restart, listing: control '
+                'events, delivered data bytes and outcome of the model = those of the implementation; on the implementation alone: one-line '
+                'commands, session plan, restart triple, 226-after-EOF, all data delivered, and a twin run of the same visit under another '
+                'segmentation / arrival schedule gives the same observable run; Command.to_bytes on boundary code points; parse_address; '
+                'Reply.parse on blocks.  non-trivial = distinct (stream, segmentation) with more than one segment, plus distinct decoded '
+                '(user, password, path, listing) with a character outside 0x21..0x7e',
         'samples': [{'case': _slim(cases[i]), 'impl': _short(results[i])} for i in sample_idx],
         'input_distribution': dist,
         'outcome_distribution': outcomes,
         'urls_rejected_by_parser': skipped,
+        'twin_runs': sum(1 for x in results if isinstance(x, dict) and 'twin' in x),
         'coq_files': len(files),
         'timing_s': {'impl': round(t_impl, 1), 'coq_eval_wall': round(t_coq, 1), 'coq_eval_per_file': sorted(ftimes)},
         'disagreements': disagreements,
